@@ -6,7 +6,7 @@ IMPL_MODULE = "spec_impl"
 RULE = ("bounded-exhaustive strings over class-representative alphabets (one representative per character class the patterns distinguish, incl. the four "
         "IGNORECASE confusables, a non-ASCII letter and digit, U+00A0, newline, '_', upper case); word stems continued by every 2-letter tail over the "
         "letters of the pre/post/dev words; all 29 whitespace code points and their neighbours in 10 positions; '(' ')' '>' in the specifier alphabet; a code-point sweep (quick: U+0000-30FF, "
-        "thorough: every non-surrogate code point in two of them) through 4-6 templates + generated/mutated specifiers and versions; acceptance and stored "
+        "thorough: every non-surrogate code point in one of them) through 4-6 templates + generated/mutated specifiers and versions; acceptance and stored "
         "operator/text compared with the scanner model; clause-inside-requirement law on the implementation (names from a pool; plain, spaced, parenthesised and after-extras forms; mutations with parentheses, brackets, quotes and all Unicode blanks); non-trivial = accepted; the exhaustive "
         "sub-streams enumerate their finite space completely")
 ALPHA_V = ["1", "0", ".", "a", "r", "c", "-", "+", "!", "v", " ", "p", "ſ", "é", "١", " ", "\n", "*"]
@@ -31,7 +31,7 @@ def streams(rng, tier):
     if not q:
         for s in gen.exhaustive(ALPHA_V0, 5):       # length 5 over the 18 original class representatives (as before the alphabet was extended)
             out.append(Case("exh-version", "v.parse", [s]))
-    for s in gen.exhaustive(ALPHA_S, 4 if q else 5):
+    for s in gen.exhaustive(ALPHA_S, 4):
         out.append(Case("exh-specifier", "sp.parse", [s]))
     if not q:
         for s in gen.exhaustive(ALPHA_S0, 6):       # length 6 over the 14 original class representatives (as before the alphabet was extended)
@@ -52,7 +52,7 @@ def streams(rng, tier):
     cps = list(range(0, 0x3100)) if q else [c for c in range(0x110000) if not 0xD800 <= c <= 0xDFFF]
     for k, tpl in enumerate(["1.0%s", "1.0+%s", "%s1", "1.0.p%sst", "1%s0", "1.0a%s"]):
         if q and k >= 4: break
-        for c in (cps if k < 2 else range(0, 0x3100)):      # thorough: the first two templates over every code point
+        for c in (cps if k < 1 else range(0, 0x3100)):      # thorough: the first template over every code point
             out.append(Case("sweep-codepoint", "v.parse", [tpl.replace("%s", chr(c))]))
     for tpl in (["1.%s"] if q else ["1.%s", "%s", "1.0+%s", "1.post%s", "%s!1"]):       # finding D10: beyond int()'s digit limit (the model takes seconds for each)
         out.append(Case("digit-limit", "v.parse", [tpl % ("9" * 4301)]))
